@@ -388,6 +388,48 @@ def check_final_decision(ctx, F):
         ctx.ok('R3', role, b.defpath, '%d accepting path(s), each controlled by accum, total and laps_or_zeros' % len(oks), key=key)
 
 
+def check_inferred_probability(ctx, F):
+    """The probability the validator infers for the last symbol (total - accum) is non-zero on every path that
+    hands it on: either accum < total was established, or the configuration is PRECISION == BITS (total wraps to
+    0 and the sum of at least one non-zero, non-wrapping probability is not 0 - listed assumption)."""
+    b = [x for x in F.bodies if x.promoted is None and x.name == 'accumulate_nonzero_probabilities' and x.dk == 'Fn']
+    key = 'R8/inferred-probability-nonzero/accumulate_nonzero_probabilities'
+    role = 'the inferred last probability cannot be zero'
+    if not b:
+        ctx.bad('R8', role, 'accumulate_nonzero_probabilities', 'validator not found', key=key)
+        return
+    b = b[0]
+    ev, paths = rules.evaluate(b)
+    bad = None
+    n = 0
+    edge = 0
+    for r in paths or []:
+        for i, e in enumerate(r.events):
+            if e['kind'] == 'call' and e['callee'].endswith('FnMut::call_mut') and len(e['args']) == 2 and e['args'][1][0] == 'agg':
+                prob = e['args'][1][2][2] if len(e['args'][1][2]) == 3 else None
+                if prob is None or not (prob[0] == 'bin' and prob[1].split('.')[0] == 'Sub' and bare_pow2(prob[2])):
+                    continue
+                n += 1
+                accum = prob[3]
+                preds = r.preds[:rules.preds_before(r, i)]
+                lt = any(t[0] == 'bin' and ((t[1] == 'Le' and bare_pow2(t[2]) and t[3] == accum and v == 0) or (t[1] == 'Lt' and t[2] == accum and bare_pow2(t[3]) and v == 1)) for t, v, _ in preds)
+                full = any(t[0] == 'bin' and t[1] in ('Ne', 'Eq') and ('c', 'PRECISION') in (t[2], t[3]) and ((t[1] == 'Ne' and v == 0) or (t[1] == 'Eq' and v == 1)) for t, v, _ in preds)
+                if lt:
+                    continue
+                if full:
+                    edge += 1
+                    continue
+                bad = 'a path hands `%s` on as the last probability without having established accum < total (e.g. a table that already sums to 2^PRECISION gives an inferred probability of zero inside a NonZero)' % sym.show(prob)[:80]
+    if bad:
+        ctx.bad('R8', role, b.defpath, bad, key=key, loc=rules.loc(b))
+    elif n == 0:
+        ctx.unresolved('R8', role, b.defpath, 'inferred-probability hand-over not recognised', key=key)
+    else:
+        ctx.ok('R8', role, b.defpath, '%d hand-over path(s): accum < total established (%d on the PRECISION == BITS edge, where total wraps to 0)' % (n, edge), key=key)
+        if edge:
+            ctx.assume('at PRECISION == BITS the inferred probability 0 - accum is non-zero because accum is a non-wrapped sum of >= 1 non-zero entries (laps_or_zeros == 0, num_explicit_probabilities >= 1)')
+
+
 FLOAT_LIKE = ('f32', 'f64', 'F', 'bool')
 
 
@@ -504,6 +546,7 @@ def run(ctx):
     check_two_point(ctx, F)
     check_final_decision(ctx, F)
     check_constructor_narrowing(ctx, F)
+    check_inferred_probability(ctx, F)
     if ctx.tier == 'thorough':
         from vlib import witness
         witness.run(ctx, 'C19')
